@@ -10,7 +10,7 @@ from ..harness import Violation
 LEVEL = "exploration"
 RULE = (
     "Label maps over the labels of 1-4 named groups (random partition of a subset of {1..6, 9, 10, 11, 17, 19, 33, 200}; kinds plain / merge / "
-    "single-instance; names with '-', '_', space, '.', upper case) in 1-3-D x input types (signed dtypes too for semantic "
+    "single-instance; names with '-', '_', space, '.', upper case) in 1-3-D and C / Fortran / negative-stride / transposed layout x input types (signed dtypes too for semantic "
     "input) x matcher {threshold, many-to-one, merge} x optional decision metric; plus a variant in which every voxel not "
     "belonging to one target group is rewritten arbitrarily, and a variant holding one label of no group - a positive one or, for signed dtypes, a negative one - (in the "
     "prediction or in the reference). Oracle: (a) differential - each group's result equals the result of a group-less "
@@ -151,6 +151,17 @@ def check(case, stats):
         if msg:
             raise Violation(f"group {t['name']!r} result changed when only voxels of other groups were changed: {msg}")
         stats.count("non_interference_compared")
+        # the caller refills its buffers and asks the same evaluator again: same array objects, new contents
+        pred[...] = pv
+        ref[...] = rv
+        out3 = H.lib_call(ev.evaluate, pred, ref)
+        for g in groups:
+            msg = meta.diff(meta.observe(out2[g["name"].lower()][0]), meta.observe(out3[g["name"].lower()][0]))
+            if msg:
+                raise Violation(f"group {g['name']!r}: the evaluator that saw these array objects before (with other contents) reports something else than a fresh evaluator on fresh arrays: {msg}")
+        pred[...] = pc
+        ref[...] = rc
+        stats.count("refilled_buffers_compared")
     # undefined label
     und = case.get("undefined")
     if und:
